@@ -382,7 +382,7 @@ CHECKS = {
         "timeout": {"quick": 900, "thorough": 14000},
     },
     "C20": {
-        "scenarios": [("C20-config", "vreal")],
+        "scenarios": [("C20-config", "vreal"), ("C20-conc", "vreal")],
         "rule": "per case 8 generated valid client configurations (1-3 profiles, names/passwords with URL-, JSON- and shell-special and "
                 "non-ASCII characters and maximum lengths, IP/domain/both servers, ports and port ranges incl. single-port ranges, "
                 "optional MTU/multiplexing/handshake/traffic pattern, socks5 authentication, advanced settings) and 8 server "
